@@ -15,9 +15,9 @@ import regen_c01
 PID = "C01"
 sys.set_int_max_str_digits(0)
 THEOREMS = ["ivt_inverse", "ivt_words_untouched_elsewhere", "ivt_words_describe", "flags_decode", "len_is_sum_plain_crc",
-            "mbi_roundtrip_plain_crc", "mbi_roundtrip_refuted", "reexport_stable", "mro_resolution_all_classes", "wf_class_sweep",
+            "mbi_roundtrip_plain_crc", "repaired_findings_hold", "reloc_table_roundtrip", "reexport_stable", "mro_resolution_all_classes", "wf_class_sweep",
             "class_selection_sweep", "class_selection_refuted", "manifest_flags_and_is_bitwise", "disassemble_cuts_collect",
-            "hmac_finalize_inverse_except_known"]
+            "hmac_finalize_inverse"]
 MIXIN_IDS = regen_c01.MIXIN_IDS
 UNSUPPORTED = {"MixinBcaTable", "MixinBcaObsolete", "MixinFcfObsolete", "MixinCertBlockVx", "MixinBca", "MixinFcf",
                "ExportMixinAppBcaFcf", "ExportMixinAppFcf", "ExportMixinCrcSignBca", "ExportMixinEccSignVx", "MixinManifest"}
@@ -195,6 +195,14 @@ def gen_cases(tier, rng, db):
             cases.append(("valid images", {"family": fam, "target": t, "auth": a, "app": app.hex(),
                                            "opts": gen_opts(rng, db, fam, c, v)}))
         if not supported(c):
+            if "MixinFcfObsolete" in ms and not dup:
+                # payloads whose FCF life-cycle byte is arbitrary, and payloads that end before the FCF area
+                for j, ln in enumerate((0x100, 0x40D, 0xC40, 0xC44)):
+                    app = bytearray(gen_app(rng, ln))
+                    if ln > 0x40C:
+                        app[0x40C] = (0x00, 0x2D, 0xD4)[j % 3]
+                    cases.append(("FCF life-cycle byte", {"family": fam, "target": t, "auth": a, "app": bytes(app).hex(),
+                                                          "opts": gen_opts(rng, db, fam, c, 0)}))
             continue
         # crafted: payload that ends in something resembling a relocation-table marker
         if not dup:
@@ -503,6 +511,9 @@ def oracle(case, res, db):
         cls.append("appfcf-class")
     if kind == "bca" and "MixinBca" in ms and w32(app_in, 0x24) & 0x3F != res["image_type"]:
         cls.append("no-ivt-type-bits")
+    if kind == "bca" and "MixinFcfObsolete" in ms and ob.get("lifecycle") == 0xFF and \
+            (app_in[0x40C] if len(app_in) > 0x40C else 0) not in (0xFF, 0xFE, 0x90, 0x95, 0x9B, 0x6B):
+        cls.append("fcf-lifecycle-byte-not-in-enum")
     sel = res.get("parsed_mixins_short")
     if sel is None:
         # the documented selection rule: the first offer of the family with the image type found in the image
